@@ -288,7 +288,10 @@ def load(obj, classes=None):
 
     # Load the class
     json_module_parts = json_module_clean.split(".")
-    if classes and len(json_module_parts) == 1:
+    if classes and json_module_clean in classes:
+        # Name of a local class (which can look like a module path)
+        json_class = classes[json_module_clean]
+    elif classes and len(json_module_parts) == 1:
         # Local class name -- probably means it won't work
         try:
             json_class = classes[json_module_parts[0]]
